@@ -1,7 +1,7 @@
 \* C15 negative config: the walker does not skip underscore-prefixed directories: NothingElseTouched must be violated.
 CONSTANTS
   MaxFiles = 2
-  Trees <- TreesSkip
+  Trees <- TreesForest
   Ws = {1}
   FlagSets <- AllFlags
   Mutex = TRUE
